@@ -314,6 +314,12 @@ func handle(f []string) string {
 	if strings.HasPrefix(f[0], "sidx") {
 		return handleSidx(segs[1:])
 	}
+	if f[0] == "strm" {
+		return handleStream(segs[1:])
+	}
+	if f[0] == "trc" {
+		return handleTrace(segs[1:])
+	}
 	var schemas []*measure.VSchema
 	for _, t := range segs[0] {
 		i := strings.IndexByte(t, '=')
